@@ -226,7 +226,7 @@ def numeric_visitors(rep, F, rule='VISITOR-EXACT'):
     arithmetic on it, or rendering it as text is a violation; an unknown external callee is undecided"""
     n = 0
     for f in F.real_fns():
-        if f.is_closure or f.self_ty is None or 'BigDecimalVisitor' not in f.self_ty or not re.match(r'visit_([iu](8|16|32|64|128)|f(32|64))$', f.item or ''):
+        if f.is_closure or f.self_ty is None or f.trait != 'serde_crate::de::Visitor' or not re.match(r'visit_([iu](8|16|32|64|128)|f(32|64))$', f.item or ''):
             continue
         n += 1
         rep.add_functions([f.name])
